@@ -17,7 +17,7 @@ import (
 
 // POp is one step of a PeriodLimit history. The first step of every path is the configuration.
 type POp struct {
-	K      string `json:"k"`                // cfg | take | adv | fault
+	K      string `json:"k"`                // cfg | take | adv | fault | noscript | wipe
 	Period int    `json:"period,omitempty"` // cfg
 	Quota  int    `json:"quota,omitempty"`  // cfg
 	Align  bool   `json:"align,omitempty"`  // cfg
@@ -48,6 +48,10 @@ func (o POp) String() string {
 			return "fault-on" + h
 		}
 		return "fault-off" + h
+	case "noscript":
+		return "server-loses-script-cache"
+	case "wipe":
+		return "server-loses-data-and-script-cache"
 	}
 	return o.K
 }
@@ -264,6 +268,21 @@ func runPeriodOnce(path []POp, verbose bool) runResult {
 			if verbose {
 				fmt.Printf("  step %d %v\n", i, o)
 			}
+		case "noscript":
+			// the server forgets its cached scripts, data and reachability untouched: the
+			// reference does not change (under a fault every take still has to report an error)
+			e.loseScripts()
+			if verbose {
+				fmt.Printf("  step %d %v; scripts cached %s\n", i, o, e.scriptBits())
+			}
+		case "wipe":
+			// restart without persistence: the counters are gone with the store — no window is
+			// open any more (the window of a key IS its counter + TTL in the store)
+			e.wipe()
+			r.win = map[string]*pWin{}
+			if verbose {
+				fmt.Printf("  step %d %v\n", i, o)
+			}
 		}
 		d := periodDump(e)
 		if verbose {
@@ -291,7 +310,7 @@ func runPeriodOnce(path []POp, verbose bool) runResult {
 	if cfg.Align {
 		phase = r.now % (int64(cfg.Period) * 1000)
 	}
-	key := fmt.Sprintf("%v|%s|fault=%v|phase=%d|%s", cfg, strings.Join(p, " "), faulty, phase, dumpString(d))
+	key := fmt.Sprintf("%v|%s|fault=%v|phase=%d|%s|scripts=%s", cfg, strings.Join(p, " "), faulty, phase, dumpString(d), e.scriptBits()[:1])
 	return runResult{key: key, nontrivial: over}
 }
 
@@ -320,16 +339,27 @@ func periodConfigs(thorough bool) []POp {
 	return out
 }
 
-func periodAlphabet(path []POp) []POp {
+func periodAlphabet(path []POp, maxFlushes int, last bool) []POp {
 	faulty := false
+	lastFlush, flushes := false, 0
 	for _, o := range path {
 		if o.K == "fault" {
 			faulty = o.On
+		}
+		lastFlush = o.K == "noscript"
+		if lastFlush {
+			flushes++
 		}
 	}
 	ops := []POp{{K: "take", Key: "a"}, {K: "take", Key: "b"}}
 	for _, a := range []string{"half", "pm1", "p", "2p"} {
 		ops = append(ops, POp{K: "adv", A: a})
 	}
-	return append(ops, POp{K: "fault", On: !faulty})
+	ops = append(ops, POp{K: "fault", On: !faulty})
+	// the server loses its script cache while staying reachable (also during a fault: fault-on,
+	// lost, fault-off = a restart with persisted data)
+	if !lastFlush && !last && flushes < maxFlushes {
+		ops = append(ops, POp{K: "noscript"})
+	}
+	return ops
 }
